@@ -286,6 +286,14 @@ def gen_cases(rng, n):
                 "format_size('abc')", "format_size(-1)", "from_base64('***')", "power(2)", "concat_ws('-')",
                 "substr(%s, %s)" % (q(t), rng.choice(HUGE)), "format_time(%s)" % rng.choice(HUGE), "hex(%s)" % rng.choice(HUGE),
                 "year(name)", "format_time(name)", "power(size, name)", "substr(name, name)", "hex(name)",
+                # values that are not numbers although their type is (the square root or logarithm of a negative number, the
+                # logarithm of 0, an overflowing power) as arguments of every function that takes a number
+                "least(sqrt(-1), 1)", "greatest(1, sqrt(-1))", "greatest(ln(-1), 0, 3)", "least(ln(0), 5)", "least(log(-5), log(-6))",
+                "greatest('nan', 1)", "least('inf', '-inf')", "greatest(exp(1000), 1)", "least(power(10, 400), 1)",
+                "abs(sqrt(-1))", "power(sqrt(-1), 2)", "sqrt(sqrt(-1))", "exp(ln(-1))", "hex(sqrt(-1))", "bin(ln(0))", "oct(exp(1000))",
+                "format_time(sqrt(-1))", "format_size(sqrt(-1))", "format_size(ln(0))", "substr(%s, sqrt(-1))" % q(t),
+                "substr(%s, 1, ln(0))" % q(t), "least(sqrt(size - 100000), 1)", "greatest(ln(size - 100000), 0)",
+                "concat(least(sqrt(-1), 2), greatest(sqrt(-1), 2))", "log(sqrt(-1), 2)", "log(2, sqrt(-1))",
             ])
             add(w, ("wrong",), "wrong")
     return cases
